@@ -894,6 +894,9 @@ func execCase(run *kit.Run, c Case, verbose bool) {
 	// values: every value returned by a consumer / pop was pushed, none twice
 	pushed := map[int64]bool{}
 	for _, o := range c.Ops {
+		if o.V == 0 {
+			continue // consumers carry no value; 0 is never pushed, so a phantom zero value is recognised
+		}
 		pushed[o.V] = true
 	}
 	seen := map[int64]int{}
@@ -1607,6 +1610,82 @@ func qCancelRace(r *kit.Rand) Case {
 	return b.c
 }
 
+// several consumers with DIFFERENT contexts on one cond; the context of a non-oldest one is cancelled: its watcher
+// must wake IT (Broadcast), not just the longest-waiting consumer
+func qCancelYounger(r *kit.Rand) Case {
+	b := newB("queue", "cancel-non-oldest", Trk{Kind: "unlimited"})
+	m := r.Range(2, 4)
+	var cons []int
+	for i := 0; i < m; i++ {
+		cons = append(cons, b.spawn(pick(r, "wait", "recv")))
+	}
+	for _, j := range []int{m - 1, r.Range(1, m-1)} {
+		b.cancel(cons[j])
+		b.settle()
+	}
+	if r.Bool() {
+		b.do("add")
+		b.settle()
+	}
+	return b.c
+}
+
+func qProdCancelYounger(r *kit.Rand) Case {
+	b := newB("queue", "cancel-non-oldest", Trk{Kind: "quota", Hard: 1, Soft: 1, Burst: 0.5})
+	b.do("add")
+	m := r.Range(2, 3)
+	var ps []int
+	for i := 0; i < m; i++ {
+		ps = append(ps, b.spawn("badd"))
+	}
+	b.cancel(ps[m-1])
+	b.settle()
+	return b.c
+}
+
+// a parked consumer, then a push and a Close back to back on one P (the woken consumer cannot run in between, so
+// Close gets the lock first): the consumer returns the pushed value or ErrQueueClosed - never a zero value with nil
+func qPushClose(r *kit.Rand) Case {
+	b := newB("queue", "push-then-close", Trk{Kind: "unlimited"})
+	for i, m := 0, r.Range(1, 3); i < m; i++ {
+		b.spawn(pick(r, "wait", "recv"))
+	}
+	b.settle()
+	for i, k := 0, r.Range(1, 2); i < k; i++ {
+		b.do("add")
+	}
+	b.do("close")
+	b.c.Procs = 1
+	return b.c
+}
+
+func dPushClose(r *kit.Rand) Case {
+	b := newB("deque", "push-then-close", dequeTrk(r))
+	for i, m := 0, r.Range(1, 3); i < m; i++ {
+		b.spawn(endWait(r))
+	}
+	b.settle()
+	for i, k := 0, r.Range(1, 2); i < k; i++ {
+		b.do(endPush(r))
+	}
+	b.do("close")
+	b.c.Procs = 1
+	return b.c
+}
+
+func dCancelYounger(r *kit.Rand) Case {
+	b := newB("deque", "cancel-non-oldest", Trk{Kind: "hard", Cap: 1})
+	m := r.Range(2, 3)
+	var cons []int
+	k := endWait(r)
+	for i := 0; i < m; i++ {
+		cons = append(cons, b.spawn(k))
+	}
+	b.cancel(cons[m-1])
+	b.settle()
+	return b.c
+}
+
 // producers parked on a quota queue; pops (sequential or racing) make room; then Close / cancel
 func qProducers(r *kit.Rand) Case {
 	h := r.Range(1, 4)
@@ -2079,6 +2158,74 @@ func corpus() []Case {
 		b.do("remove")
 		out = append(out, b.c)
 	}
+	// seeded C07-ind2-3: consumers whose context can never end still need the exit broadcast of the cascade:
+	// three parked consumers (Background / TODO / mixed with a cancellable one), a burst of Adds
+	for _, ctxs := range [][]string{{"bg", "bg", "bg"}, {"todo", "bg", ""}, {"", "bg", "todo"}} {
+		for _, kinds := range [][]string{{"wait", "wait", "wait"}, {"recv", "wait", "recv"}} {
+			b := newB("queue", "corpus-noncancellable-burst", Trk{Kind: "unlimited"})
+			for i := range ctxs {
+				t := b.spawn(kinds[i])
+				b.c.Ops[t].Ctx = ctxs[i]
+			}
+			b.settle()
+			b.do("add")
+			b.do("add")
+			b.do("add")
+			out = append(out, b.c)
+		}
+	}
+	// non-cancellable producers: two BlockingAdd(Background) on a full queue, two pops; and Close releases them
+	{
+		b := newB("queue", "corpus-noncancellable-producers", Trk{Kind: "quota", Hard: 2, Soft: 2, Burst: 0.5})
+		b.do("add")
+		b.do("add")
+		for i := 0; i < 3; i++ {
+			t := b.spawn("badd")
+			b.c.Ops[t].Ctx = "bg"
+		}
+		b.do("remove")
+		b.do("remove")
+		b.settle()
+		b.do("close")
+		out = append(out, b.c)
+	}
+	for _, k := range []string{"wf", "wb"} {
+		b := newB("deque", "corpus-noncancellable-burst", Trk{Kind: "unlimited"})
+		for i := 0; i < 3; i++ {
+			t := b.spawn(k)
+			b.c.Ops[t].Ctx = "bg"
+		}
+		b.settle()
+		b.do("pb")
+		b.do("pf")
+		out = append(out, b.c)
+	}
+	// seeded C09-ind2-2: two consumers with different contexts; the YOUNGER one's context is cancelled
+	for _, k := range []string{"wait", "recv"} {
+		b := newB("queue", "corpus-cancel-non-oldest", Trk{Kind: "unlimited"})
+		b.spawn("wait")
+		t := b.spawn(k)
+		b.settle()
+		b.cancel(t)
+		out = append(out, b.c)
+	}
+	// push then Close before the woken consumer runs (one P)
+	for _, cont := range []string{"queue", "deque"} {
+		b := newB(cont, "corpus-push-then-close", Trk{Kind: "unlimited"})
+		if cont == "queue" {
+			b.spawn("wait")
+			b.settle()
+			b.do("add")
+		} else {
+			b.spawn("wf")
+			b.spawn("wb")
+			b.settle()
+			b.do("pb")
+		}
+		b.do("close")
+		b.c.Procs = 1
+		out = append(out, b.c)
+	}
 	// Close wakes parked consumers
 	{
 		b := newB("queue", "corpus-close", Trk{Kind: "unlimited"})
@@ -2182,6 +2329,7 @@ func main() {
 		w int
 	}
 	fams := []fam{
+		{qCancelYounger, 2}, {qProdCancelYounger, 1}, {qPushClose, 2}, {dPushClose, 2}, {dCancelYounger, 1},
 		{qBurst, 4}, {qPopPush, 3}, {qCloseRace, 3}, {qCancelRace, 3}, {qProducers, 4}, {qIterator, 2}, {qAlreadyTrue, 1}, {qWindow, 1}, {qRandom, 4},
 		{dBurst, 4}, {dPopPush, 3}, {dProducers, 4}, {dCloseRace, 3}, {dCancelRace, 3}, {dAlreadyTrue, 2}, {dWindow, 1}, {dRandom, 4},
 	}
